@@ -15,7 +15,7 @@ from lib import env
 from . import approx
 
 TITLE = 'C05: two-world (caller graph vs internal spanner) affinity inference over the approximate algorithms.'
-RULES = {'R06d': 2, 'R05a': 3, 'R05b': 4, 'R05c': 1, 'R05d': 2, 'R05e': 5, 'R05f': 2, 'R15e': 10}
+RULES = {'R06d': 2, 'R15b': 2, 'R05a': 3, 'R05b': 4, 'R05c': 1, 'R05d': 2, 'R05e': 5, 'R05f': 2, 'R15e': 10}
 DOCS = {
     'R05a': 'no internal descriptor escapes through the caller\'s iterator',
     'R05b': 'returned weight is accumulated from the caller\'s weight map for the emitted edges',
